@@ -13,10 +13,11 @@ The generator tracks the operand stack statically the way wat2c does, and stays 
     has no stack-polymorphic typing of unreachable code;
   * `br` to a loop only when the loop has no result types (wat2c treats a loop's results as branch operands).
   * `if … else` with results of DIFFERENT types is avoided (wat2c pops the then-branch results in the wrong order and panics).
-Two forms the unchanged tree mistranslates are generated in separate streams, so that their (known) findings cannot mask anything
-else: mode "B" functions use `br_table` WITH results (finding gen-ctl:br_table-result), mode "C" functions let a `br` carry two
-results down over FEWER parked values than it carries (the register copies overlap: finding gen-ctl:br-multi-result-overlap);
-mode "A" functions contain neither.
+Two forms are optional features, selected by letters in `mode`: "B" allows `br_table` WITH results, "C" allows a `br` that carries
+two results down over FEWER parked values than it carries (the register copies overlap).  While the tree mistranslates one of them
+(findings gen-ctl:br_table-result / gen-ctl:br-multi-result-overlap listed in known_findings.json) the check generates it in a
+separate stream, so that the known finding cannot mask anything else; once the finding is gone the feature is part of the main
+stream (mode "ABC").
 
 gen_function(rng, name, mode) -> Fn(name, params, result, text, tags);  module_text(fns) adds the helper functions.
 """
@@ -260,8 +261,8 @@ class G:
             opts += ["br"] * 4
             if any(not s["results"] and s["kind"] != "loop" for s in self.scopes):
                 opts.append("br_table")
-            if self.mode == "B":
-                opts += ["br_table_res"] * 4
+            if "B" in self.mode:
+                opts += ["br_table_res"] * (4 if self.mode == "B" else 1)
         if len(self.stack) - len(self.in_scope()) == 0:
             opts.append("return")
         if not opts:
@@ -269,9 +270,9 @@ class G:
         o = r.choice(opts)
         if o == "br":
             ts = [s for s in self.targets() if s["kind"] != "loop"]        # an unconditional br to a loop would not terminate
-            if self.mode != "C":
+            if "C" not in self.mode:
                 ts = [s for s in ts if not self.overlaps(s)]
-            elif any(self.overlaps(s) for s in ts) and r.random() < 0.7:
+            elif self.mode == "C" and any(self.overlaps(s) for s in ts) and r.random() < 0.7:
                 ts = [s for s in ts if self.overlaps(s)]
             if not ts:
                 return False
@@ -458,6 +459,9 @@ def risk_key(fn):
         return "br_table-result"
     if fn.mode == "C":
         return "br-multi-result-overlap"
+    for t in ("br_table-result", "br-multi-result-overlap"):
+        if t in fn.tags:
+            return t
     for t in ("br-result-parked", "br-result-copy", "br-result", "br_table", "return-nested", "br_if", "multi-result-scope", "call-multi", "loop"):
         if t in fn.tags:
             return t
